@@ -168,6 +168,11 @@ func (c03) Gen(tier string, seed int64) []fw.Unit {
 	us = append(us, collideUnits(r, "aztec", "aztec", printAB, 24, 33, 0)...)
 	us = append(us, collideUnits(r, "aztec", "aztec", []byte("ABCDEFGHIJKLMNOPQRSTUVWXYZ0123456789-/"), 24, 23, 0)...)
 	us = append(us, collideUnits(r, "aztec", "aztec", allAB, 32, 33, 0)...)
+	for _, base := range []string{"hello", "HELLO, WORLD. 12", "A1"} {
+		for _, d := range decorate([]byte(base)) {
+			add("decorated", d, 33, 0)
+		}
+	}
 	// random bytes
 	for i := 0; i < 100*scale; i++ {
 		n := 1 + r.Intn(80)
